@@ -148,11 +148,15 @@ def trace_validate(module, path, name, timeout=3600, xmx="6g", extra_states=None
     r = tlc(module, TRACE_CFG, name, workers=1, deque=True, xss=True, xmx=xmx,
             env_extra={"TRACE": path}, timeout=timeout)
     bad = []
+    reasons = {}
     consumed = None
     with open(r["out_path"], errors="replace") as f:
         for line in f:
             if line.startswith('"MISMATCH '):
-                bad.append(int(json.loads(line).split()[1]))
+                parts = json.loads(line).split()
+                bad.append(int(parts[1]))
+                if len(parts) > 2:
+                    reasons[int(parts[1])] = parts[2]
             if line.startswith('"UNCONSUMED'):
                 raise ToolError("trace %s not consumed: %s" % (path, line))
             if line.startswith('"CONSUMED '):
@@ -164,6 +168,8 @@ def trace_validate(module, path, name, timeout=3600, xmx="6g", extra_states=None
             raise ToolError("trace %s: %d events but consumed %s" % (path, len(events), consumed))
     elif r["distinct"] != len(events) + 1 + extra:
         raise ToolError("trace %s: %d events but %d states" % (path, len(events), r["distinct"]))
+    for i, why in reasons.items():
+        events[i - 1]["_reason"] = why
     return events, [(i, events[i - 1]) for i in bad], r
 
 
